@@ -1259,10 +1259,10 @@ Section AuthProofs.
       { unfold user_authenticated in Ea. apply andb_prop in Ea as [Ea _]. destruct (u_cred u'); try discriminate. reflexivity. }
       destruct DC as [DC|[_ DG]]; [congruence|].
       cbn [astep a_lookups]. rewrite L1. cbn [take_lookup]. split.
-      + split; [exact L1|]. cbn [a_users]. rewrite DU. apply quiet_set; [exact QU|].
+      + split; [reflexivity|]. cbn [a_users]. rewrite DU. apply quiet_set; [exact QU|].
         split; [exact DQ|]. split; [congruence|]. intros _. now rewrite DP.
       + cbn [a_out]. rewrite O1. intros r u Hin. apply in_app_or in Hin as [Hin|[Hin|[]]]; [now left|].
-        injection Hin as <- <-. right. split; [reflexivity|]. exists pass. split; [exact Ed| exact DG].
+        injection Hin as <- <-. right. split; [reflexivity|]. exists pass. split; [reflexivity| exact DG].
     - (* asks the helper, which answers before anything else happens *)
       assert (Ecr : (match u_cred u' with
                      | CFailed => mkA (a_users st1) (a_lookups st1) (a_out st1 ++ [(rid, None)]) (a_now st1)
@@ -1281,14 +1281,65 @@ Section AuthProofs.
       assert (QU2 : forall n usr, find_user n us2 = Some usr -> UQuiet n usr).
       { unfold us2. apply quiet_set; [exact QU|].
         split; [reflexivity|]. unfold v. cbn [u_cred u_pass]. destruct (good name pass) eqn:G; split; congruence. }
-      unfold evaluate. cbn [a_users]. unfold us2 at 1. rewrite find_set_same.
-      unfold user_authenticated. cbn [u_cred u_expire a_now].
+      assert (Fus2 : find_user name us2 = Some (mkU pass v (a_now st1) [])) by (unfold us2; apply find_set_same).
+      unfold evaluate. cbn [a_users]. rewrite Fus2.
+      unfold user_authenticated. cbn [u_cred u_expire a_now a_lookups].
       unfold v. destruct (good name pass) eqn:G; cbn [is_ok andb u_cred].
       + assert (Hlt : (a_now st1 <? a_now st1 + c_ttl cfg)%Z = true) by (apply Z.ltb_lt; lia).
         rewrite Hlt. split; [split; [reflexivity| exact QU2]|].
         cbn [a_out]. intros r u Hin. apply in_app_or in Hin as [Hin|[Hin|[]]]; [now left|].
-        injection Hin as <- <-. right. split; [reflexivity|]. exists pass. split; [exact Ed| exact G].
+        injection Hin as <- <-. right. split; [reflexivity|]. exists pass. split; [reflexivity| exact G].
       + split; [split; [reflexivity| exact QU2]|].
         cbn [a_out]. intros r u Hin. apply in_app_or in Hin as [Hin|[Hin|[]]]; [now left| discriminate Hin].
   Qed.
+
+  Lemma seq_run evs : seq_evs evs -> forall st, Quiet st ->
+    Quiet (arun good cfg st evs) /\
+    forall r u, In (r, Some u) (a_out (arun good cfg st evs)) ->
+      In (r, Some u) (a_out st) \/
+      exists hdr p, In (Arrive r hdr) evs /\ creds cfg hdr = Some (u, p) /\ good u p = true.
+  Proof.
+    induction 1 as [|dt r _ IH|rid hdr r _ IH]; intros st Q.
+    - split; [exact Q| intros r u H; now left].
+    - assert (Q1 : Quiet (astep good cfg st (Tick dt))) by exact Q.
+      destruct (IH _ Q1) as [I1 I2]. split; [exact I1|]. intros r0 u Hin.
+      destruct (I2 r0 u Hin) as [Ho|(h & p & H1 & H2 & H3)]; [now left|].
+      right. exists h, p. split; [now right| split; assumption].
+    - destruct (round_quiet st rid hdr Q) as [Q1 R1]. cbv zeta in Q1, R1.
+      destruct (IH _ Q1) as [I1 I2]. split; [exact I1|]. intros r0 u Hin.
+      destruct (I2 r0 u Hin) as [Ho|(h & p & H1 & H2 & H3)].
+      + destruct (R1 r0 u Ho) as [Ho'|[-> (p & H2 & H3)]]; [now left|].
+        right. exists hdr, p. split; [now left| split; assumption].
+      + right. exists h, p. split; [right; now right| split; assumption].
+  Qed.
+
+  (* T-C: in a sequential history whoever is authorised presented credentials that the helper accepts *)
+  Theorem sequential_rejected_never_forwarded evs rid u :
+    seq_evs evs -> In (rid, Some u) (a_out (arun good cfg a_init evs)) ->
+    exists hdr p, In (Arrive rid hdr) evs /\ creds cfg hdr = Some (u, p) /\ good u p = true.
+  Proof.
+    intros S Hin. assert (Q0 : Quiet a_init) by (split; [reflexivity| discriminate]).
+    destruct (seq_run evs S a_init Q0) as [_ I]. destruct (I rid u Hin) as [[]|H]. exact H.
+  Qed.
 End AuthProofs.
+
+(* ---------------------------------------------------------------- the race (DESIGN F13) *)
+Definition good_ok (_ p : bytes) : bool := starts_with p [111; 107].            (* passwords starting with "ok" *)
+Definition cfg_w : acfg := mkCfg 3600 false.
+Definition hdr_alice_ok : bytes := [66;97;115;105;99;32;89;87;120;112;89;50;85;54;98;50;115;61].        (* Basic base64("alice:ok") *)
+Definition hdr_alice_no : bytes := [66;97;115;105;99;32;89;87;120;112;89;50;85;54;98;109;56;61].        (* Basic base64("alice:no") *)
+Definition race_events : list aev :=
+  [Arrive 1 (Some hdr_alice_ok); Arrive 2 (Some hdr_alice_no); Reply 1; Arrive 3 (Some hdr_alice_no); Reply 2].
+Definition b_alice : bytes := [97; 108; 105; 99; 101].
+
+Lemma race_witness :
+  creds cfg_w (Some hdr_alice_no) = Some (b_alice, [110; 111]) /\ good_ok b_alice [110; 111] = false /\
+  a_out (arun good_ok cfg_w a_init race_events) = [(1, Some b_alice); (3, Some b_alice); (2, None)].
+Proof. vm_compute. repeat split; reflexivity. Qed.
+
+Lemma seq_example :
+  seq_evs [Arrive 1 (Some hdr_alice_ok); Reply 1; Tick 10; Arrive 2 (Some hdr_alice_no); Reply 2; Arrive 3 None; Reply 3] /\
+  a_out (arun good_ok cfg_w a_init
+           [Arrive 1 (Some hdr_alice_ok); Reply 1; Tick 10; Arrive 2 (Some hdr_alice_no); Reply 2; Arrive 3 None; Reply 3])
+  = [(1, Some b_alice); (2, None); (3, None)].
+Proof. split; [repeat constructor| vm_compute; reflexivity]. Qed.
